@@ -519,7 +519,7 @@ pub fn limit_templates() -> Vec<(String, String)> {
 }
 
 pub fn run(seed: u64, tier: &str, ev: &mut Evidence) -> Vec<Violation> {
-    let (n_gen, n_tuples) = if tier == "thorough" { (8000usize, 20usize) } else { (150, 9) };
+    let (n_gen, n_tuples) = if tier == "thorough" { (8000usize, 20usize) } else { (450, 10) };
     let mut specs: Vec<(String, ProgSpec)> = work::corpus_specs().into_iter().filter(|(_, s)| s.source().is_some()).map(|(n, s)| (format!("corpus:{}", n), s)).collect();
     for j in 0..n_gen {
         let mut rng = Rng::for_case(seed, "C11", "workload", j as u64);
